@@ -18,7 +18,7 @@ def directed(src, prop, entries):
     with tempfile.TemporaryDirectory(dir=os.path.join(HERE, '.work')) as d:
         df = os.path.join(d, 'd.json')
         out = os.path.join(d, 'o.json')
-        json.dump([{'id': e['key'], 'case': e['witness']} for e in entries], open(df, 'w'))
+        json.dump([{'id': e.get('_vid', e['key']), 'case': e['witness']} for e in entries], open(df, 'w'))
         env = dict(os.environ, PYTHONPATH=f'{src}:{HERE}:{HERE}/.deps', PYTHONHASHSEED='0', PYTHONDONTWRITEBYTECODE='1')
         subprocess.run([sys.executable, '-P', '-m', 'vf.worker', prop, 'quick', '0', '0', '1', '1', '600', out, df], cwd=HERE, env=env, timeout=900)
         r = json.load(open(out))
@@ -34,13 +34,13 @@ def main():
     props = sorted({e['property'] for e in kf})
     bad = 0
     for p in props:
-        es = [e for e in kf if e['property'] == p]
+        es = [dict(e, _vid=f"{e['key']}#{n}") for n, e in enumerate(kf) if e['property'] == p]
         ro = directed(orig, p, es)
         rh = directed('/repo/src', p, es)
         for e in es:
-            ko = sorted({v['key'] for v in ro.get(e['key'], {}).get('violations', [])}) if 'error' not in ro.get(e['key'], {}) else ['HARNESS-ERROR ' + ro[e['key']]['error'][-200:]]
-            kh = sorted({v['key'] for v in rh.get(e['key'], {}).get('violations', [])}) if 'error' not in rh.get(e['key'], {}) else ['HARNESS-ERROR ' + rh[e['key']]['error'][-200:]]
-            ok_o = e['key'] in ko
+            ko = sorted({v['key'] for v in ro.get(e['_vid'], {}).get('violations', [])}) if 'error' not in ro.get(e['_vid'], {}) else ['HARNESS-ERROR ' + ro[e['_vid']]['error'][-200:]]
+            kh = sorted({v['key'] for v in rh.get(e['_vid'], {}).get('violations', [])}) if 'error' not in rh.get(e['_vid'], {}) else ['HARNESS-ERROR ' + rh[e['_vid']]['error'][-200:]]
+            ok_o = e.get('key_at_pinned_commit', e['key']) in ko
             ok_h = (e['key'] in kh) if e['status'] == 'open' else (kh == [])
             flag = 'ok ' if ok_o and ok_h else 'BAD'
             if flag == 'BAD':
